@@ -410,3 +410,40 @@ def reach_origin_params(give_fsn: bool, fsn: int, rnd: int, give_time: bool, cha
     post: _ != 0
     """
     return origin_params_check(give_fsn, fsn, rnd, give_time, change_file_id)
+
+
+# ------------------------------------------------------------------------------------------------- empty sets
+
+from vf.harness.items import ITEM_SETS, N_SETS
+from dliswriter.logical_record.core.logical_record.logical_record_bytes import LogicalRecordBytes
+
+
+def empty_set_check(ci, named, cap):
+    """A set without objects (e.g. left behind by a rejected add_* call) produces an empty body and therefore no
+    segment at all: it never reaches the file."""
+    S = ITEM_SETS[ci]
+    s = S(set_name='N' if named else None)
+    lrb = s.represent_as_bytes()
+    if lrb.size != 0 or len(lrb.bts) != 0:
+        return 1
+    if len(list(lrb.make_segments(cap))) != 0:
+        return 2
+    return 0
+
+
+def ob_empty_set(ci: int, named: bool, cap: int) -> int:
+    """
+    pre: 0 <= ci < N_SETS
+    pre: 12 <= cap <= 16376 and cap % 2 == 0
+    post: _ == 0
+    """
+    return empty_set_check(ci, named, cap)
+
+
+def reach_empty_set(ci: int, named: bool, cap: int) -> int:
+    """
+    pre: 0 <= ci < N_SETS
+    pre: 12 <= cap <= 16376 and cap % 2 == 0
+    post: _ != 0
+    """
+    return empty_set_check(ci, named, cap)
